@@ -365,11 +365,15 @@ META = {
     'technique': 'static analysis: interprocedural parameter-mutation/alias summaries over the resolved call graph (MUTDEF, '
                  'EFFECTS), RNG-discipline sweeps over the syntax tree (RNG), call presence/order on the event trace (MUSTPASS), '
                  'reference-transcription comparison of copy/__getstate__',
-    'level': 'Decides from the source that no mutable default (or caller-owned header dictionary) is modified directly, through '
-             'aliases or through callees, that all randomness flows from `seed` arguments (no global RNG, every default_rng(seed), '
-             'separately drawn child seeds, unseeded internal draws only behind an already-provided guard), that wall-clock time '
-             'reaches only t_start\'s default and the timers, that each recording resets antenna/digitizer/filterbank/requantizer '
-             'state, and that __getstate__/copy work on copies. Bit-identical outputs across runs are not decided.',
+    'level': 'Decides from the source that no mutable default (or caller-owned header dictionary) is modified directly, '
+             'through aliases or through callees, that all randomness flows from `seed` arguments (no global RNG, every '
+             'default_rng(seed), separately drawn child seeds, unseeded internal draws only behind an already-provided guard),'
+             " that wall-clock time reaches only t_start's default and the timers, that each recording resets "
+             'antenna/digitizer/filterbank/requantizer state for every (antenna, polarisation) and that _reset_cache '
+             'unconditionally restores every attribute the processing methods carry between calls, that no function modifies '
+             'module-level state or consumes a set / unsorted listing in an order-sensitive way, that __getstate__/copy work '
+             'on copies and that a Waterfall is deep-copied only after its h5py handle is dropped (frames loaded from .h5 can '
+             'be copied). Bit-identical outputs across runs are not decided.',
     'note': 'Aliasing is tracked per local name with attribute paths (no heap shapes); duck-typed method calls are resolved '
             'only when the method name is unique in the package.',
 }
